@@ -2470,9 +2470,15 @@ impl<'a, B: Bindgen> Generator<'a, B> {
                     self.emit(&GuestDeallocateVariant { blocks: 2 });
                 }
 
+                // flags occupy `repr().count()` operands (0, 1 or several `i32`s)
+                TypeDefKind::Flags(f) => {
+                    for _ in 0..f.repr().count() {
+                        self.stack.pop().unwrap();
+                    }
+                }
+
                 // discard the operand on the stack, otherwise nothing to free.
-                TypeDefKind::Flags(_)
-                | TypeDefKind::Enum(_)
+                TypeDefKind::Enum(_)
                 | TypeDefKind::Future(_)
                 | TypeDefKind::Stream(_)
                 | TypeDefKind::Handle(Handle::Own(_))
